@@ -2,7 +2,7 @@ package raycrossing
 
 import (
 	"github.com/twpayne/go-geom"
-	"github.com/twpayne/go-geom/xy/internal/robustdeterminate"
+	"github.com/twpayne/go-geom/bigxy"
 	"github.com/twpayne/go-geom/xy/location"
 )
 
@@ -104,26 +104,20 @@ func (counter *rayCrossingCounter) countSegment(p1, p2 geom.Coord) {
 	 * </ul>
 	 */
 	if ((p1[1] > counter.p[1]) && (p2[1] <= counter.p[1])) || ((p2[1] > counter.p[1]) && (p1[1] <= counter.p[1])) {
-		// translate the segment so that the test point lies on the origin
-		x1 := p1[0] - counter.p[0]
-		y1 := p1[1] - counter.p[1]
-		x2 := p2[0] - counter.p[0]
-		y2 := p2[1] - counter.p[1]
-
 		/**
-		 * The translated segment straddles the x-axis. Compute the sign of the
-		 * ordinate of intersection with the x-axis. (y2 != y1, so denominator
-		 * will never be 0.0)
+		 * The segment straddles the ray's line. The sign of the abscissa of its
+		 * intersection with that line, relative to the test point, is the
+		 * orientation of (test point, p1, p2), re-oriented below for downward
+		 * segments. It is evaluated exactly: translating the segment by the test
+		 * point first rounds, and the sign of a determinant of rounded differences
+		 * reports points on the segment as off it and points off it as on it.
 		 */
-		// double xIntSign = RobustDeterminant.signOfDet2x2(x1, y1, x2, y2) / (y2
-		// - y1);
-		// MD - faster & more robust computation?
-		xIntSign := robustdeterminate.SignOfDet2x2(x1, y1, x2, y2)
+		xIntSign := float64(bigxy.OrientationIndex(counter.p, p1, p2))
 		if xIntSign == 0.0 {
 			counter.isPointOnSegment = true
 			return
 		}
-		if y2 < y1 {
+		if p2[1] < p1[1] {
 			xIntSign = -xIntSign
 		}
 		// xsave = xInt;
